@@ -78,6 +78,16 @@ func buildShared(rng *Rng, round int) *c17Shared {
 		s.cbor = append(s.cbor, tokenOf(d).Bytes())
 		s.json = append(s.json, []byte(jsonOf(d).Text()))
 	}
+	// envelopes with unusual header placements, genuinely signed by hand (shared, verified from many goroutines)
+	for _, ht := range handTokens(rng) {
+		ev, err := psa.DecodeEvidenceFromCOSE(append([]byte{}, ht.tok...))
+		if err != nil {
+			continue
+		}
+		s.evs = append(s.evs, ev)
+		s.toks = append(s.toks, ht.tok)
+		s.tokKey = append(s.tokKey, ht.key.id)
+	}
 	fields := make([]reflect.StructField, 24)
 	for i := range fields {
 		key := 100000 + round*100 + i
@@ -159,6 +169,12 @@ func c17Thread(s *c17Shared, seed uint64, nOps int) []string {
 				_ = cl.SetNonce(fill(32, byte(rng.Intn(250))))
 				op := Pick(rng, ops)
 				emit("own.%s=%s", op.name, op.f(cl))
+				// … and rewrite in place, with the values they hold, everything reachable from the goroutine's own
+				// object through exported fields: no effect, unless "distinct" objects share memory
+				touchExported(cl)
+				if len(ownEv) > 0 {
+					touchExported(ownEv[rng.Intn(len(ownEv))])
+				}
 			case c < 88 && len(own) > 0: // sign own claims, verify
 				cl := own[rng.Intn(len(own))]
 				k := ks[rng.Intn(2)]
